@@ -249,7 +249,7 @@ func (f *SQLFormatter) formatSetOperation(stmt *ast.SetOperation) error {
 // formatInsert formats INSERT statements
 func (f *SQLFormatter) formatInsert(stmt *ast.InsertStatement) error {
 	f.writeKeyword("INSERT INTO")
-	f.builder.WriteString(" " + stmt.TableName)
+	f.builder.WriteString(" " + ast.QualifiedNameSQL(stmt.TableName))
 
 	if len(stmt.Columns) > 0 {
 		f.builder.WriteString(" (")
@@ -289,10 +289,10 @@ func (f *SQLFormatter) formatInsert(stmt *ast.InsertStatement) error {
 // formatUpdate formats UPDATE statements
 func (f *SQLFormatter) formatUpdate(stmt *ast.UpdateStatement) error {
 	f.writeKeyword("UPDATE")
-	f.builder.WriteString(" " + stmt.TableName)
+	f.builder.WriteString(" " + ast.QualifiedNameSQL(stmt.TableName))
 
 	if stmt.Alias != "" {
-		f.builder.WriteString(" " + stmt.Alias)
+		f.builder.WriteString(" " + ast.IdentifierSQL(stmt.Alias))
 	}
 
 	if len(stmt.Assignments) > 0 {
@@ -326,10 +326,10 @@ func (f *SQLFormatter) formatUpdate(stmt *ast.UpdateStatement) error {
 // formatDelete formats DELETE statements
 func (f *SQLFormatter) formatDelete(stmt *ast.DeleteStatement) error {
 	f.writeKeyword("DELETE FROM")
-	f.builder.WriteString(" " + stmt.TableName)
+	f.builder.WriteString(" " + ast.QualifiedNameSQL(stmt.TableName))
 
 	if stmt.Alias != "" {
-		f.builder.WriteString(" " + stmt.Alias)
+		f.builder.WriteString(" " + ast.IdentifierSQL(stmt.Alias))
 	}
 
 	if stmt.Where != nil {
@@ -546,7 +546,7 @@ func (f *SQLFormatter) formatWithClause(with *ast.WithClause) error {
 		if i > 0 {
 			f.builder.WriteString(", ")
 		}
-		f.builder.WriteString(cte.Name)
+		f.builder.WriteString(ast.IdentifierSQL(cte.Name))
 
 		if len(cte.Columns) > 0 {
 			f.builder.WriteString(" (")
@@ -554,7 +554,7 @@ func (f *SQLFormatter) formatWithClause(with *ast.WithClause) error {
 				if j > 0 {
 					f.builder.WriteString(", ")
 				}
-				f.builder.WriteString(col)
+				f.builder.WriteString(ast.IdentifierSQL(col))
 			}
 			f.builder.WriteString(")")
 		}
@@ -714,12 +714,12 @@ func (f *SQLFormatter) formatTableReference(table *ast.TableReference) {
 		f.builder.WriteString(")")
 	} else {
 		// Format regular table name
-		f.builder.WriteString(table.Name)
+		f.builder.WriteString(ast.TableNameSQL(table.Name))
 	}
 	if table.Alias != "" {
 		f.builder.WriteString(" ")
 		f.writeKeyword("AS")
-		f.builder.WriteString(" " + table.Alias)
+		f.builder.WriteString(" " + ast.IdentifierSQL(table.Alias))
 	}
 }
 
@@ -1008,7 +1008,7 @@ func (f *SQLFormatter) formatMergeStatement(stmt *ast.MergeStatement) error {
 	f.builder.WriteString(" ")
 	f.formatTableReference(&stmt.TargetTable)
 	if stmt.TargetAlias != "" {
-		f.builder.WriteString(" " + stmt.TargetAlias)
+		f.builder.WriteString(" " + ast.IdentifierSQL(stmt.TargetAlias))
 	}
 
 	// USING source_table
@@ -1017,7 +1017,7 @@ func (f *SQLFormatter) formatMergeStatement(stmt *ast.MergeStatement) error {
 	f.builder.WriteString(" ")
 	f.formatTableReference(&stmt.SourceTable)
 	if stmt.SourceAlias != "" {
-		f.builder.WriteString(" " + stmt.SourceAlias)
+		f.builder.WriteString(" " + ast.IdentifierSQL(stmt.SourceAlias))
 	}
 
 	// ON condition
